@@ -182,7 +182,7 @@ def gen_history(rng):
             prog = pg.ProgGen(prng, "slots", nclasses=prng.randint(2, 4), size=8, pyrender=True).program()
             if e1run.reference(prog, "django")[0] == "ok":
                 break
-        assets.add_assets(prog, prng, name_pools=["ascii", "ascii", "nonascii", "dashed", "dotted"])
+        assets.add_assets(prog, prng)
         for c in prog["classes"].values():
             c.pop("base", None)
         hist.append({"prog": prog, "typ": rng.choice(["document", "fragment"]), "route": rng.choice(["component", "template"]), "clear_before": s > 0 and rng.random() < 0.35, "reuse": rng.randrange(s) if s and rng.random() < 0.3 else None})
